@@ -6,7 +6,32 @@ import (
 	"fmt"
 	"go/types"
 	"strings"
+
+	"golang.org/x/tools/go/ssa"
 )
+
+// nonEscaping: every use of the allocation is a load, a store to it, a debug reference or a closure capture
+func (x *Exec) nonEscaping(a *ssa.Alloc) bool {
+	if r, ok := x.escCache[a]; ok {
+		return r
+	}
+	res := true
+	if a.Referrers() != nil {
+		for _, u := range *a.Referrers() {
+			switch i := u.(type) {
+			case *ssa.UnOp, *ssa.DebugRef, *ssa.MakeClosure:
+			case *ssa.Store:
+				if i.Val == ssa.Value(a) {
+					res = false
+				}
+			default:
+				res = false
+			}
+		}
+	}
+	x.escCache[a] = res
+	return res
+}
 
 const capLimit = "281474976710656" // 2^48: assumed upper bound on slice capacities (listed in evidence)
 
@@ -455,6 +480,37 @@ func (x *Exec) havocMap(st *State, mt types.Type) {
 
 // havocAll forgets the whole heap: later reads create fresh base arrays in a new epoch
 func (x *Exec) havocAll(st *State) {
+	// local variables that live in memory but whose address never leaves the function (only loaded, stored, captured by
+	// closures of this function) cannot be written by a callee: their cells survive the havoc
+	type keep struct {
+		t   types.Type
+		ref string
+		v   Val
+	}
+	var kept []keep
+	for sv, v := range st.env {
+		a, ok := sv.(*ssa.Alloc)
+		if !ok || v.K != KRef || !x.nonEscaping(a) {
+			continue
+		}
+		et := a.Type().(*types.Pointer).Elem()
+		if kindOf(et) == KStruct {
+			continue
+		}
+		if _, isArr := et.Underlying().(*types.Array); isArr {
+			continue
+		}
+		cur := x.readComps(st, cellKey(et), et, v.S)
+		if cur.K == KOpaque {
+			continue
+		}
+		kept = append(kept, keep{et, v.S, cur})
+	}
+	defer func() {
+		for _, k := range kept {
+			x.writeComps(st, cellKey(k.t), k.t, k.ref, k.v)
+		}
+	}()
 	x.epochs++
 	st.epoch = x.epochs
 	st.heap = map[string]*HArr{}
